@@ -60,6 +60,7 @@ pub fn fault_to_json(f: &Fault) -> Value {
         FaultAt::Response(n) => json!({"response": n}),
         FaultAt::Command(n) => json!({"command": n}),
         FaultAt::Spawn(n) => json!({"spawn": n}),
+        FaultAt::ProcResponse(s, r) => json!({"session": s, "session_response": r}),
     };
     let kind = match &f.kind {
         FaultKind::ErrReply { msg, dies } => json!({"kind": "err-reply", "msg": msg, "dies": dies}),
@@ -87,6 +88,8 @@ pub fn fault_from_json(v: &Value) -> Result<Fault, String> {
         FaultAt::Command(n as usize)
     } else if let Some(n) = v["at"]["spawn"].as_u64() {
         FaultAt::Spawn(n as usize)
+    } else if let (Some(s), Some(r)) = (v["at"]["session"].as_u64(), v["at"]["session_response"].as_u64()) {
+        FaultAt::ProcResponse(s as usize, r as usize)
     } else {
         return Err("fault.at".into());
     };
